@@ -129,6 +129,23 @@ def run(tier, seed):
                 progs[np_] = {"x": "A%d" % n, "steps": datagen.fixture(vars_, c01.DIMS, fmt=fmt) + c01.steps_for(h, r2, np_, vars_, tr)}
             exA.append(with_cfg(progs[np_], name, np_, env, PID))
     rA = datacheck.run(PID, tier, seed, exA, mcD, header=lambda evs: {"vars": c01.VT}, to_events=c01.serial, sink=sink)
+    # ... and the schema with extents of 5 in other than the fastest dimension, under the multi-process configurations
+    ws = datacheck.walks(40 if q else 600, 8, seed + 1, cfg="cfg/Access_sim_c.cfg", module="Access_MC.tla")
+    exC = []
+    for n, h in enumerate(ws):
+        fmt = [None, "64BIT_OFFSET", "64BIT_DATA"][n % 3]
+        types = c01.CDF5 if fmt == "64BIT_DATA" else c01.CLASSIC
+        vars_ = [("v%d" % i, c01.VDIMSC[i], rng.choice(types)) for i in range(len(c01.VDIMSC))]
+        progs = {}
+        for name, np_, env in CFG_A:
+            if np_ == 1 and name != "base":
+                continue
+            if np_ not in progs:
+                r2 = random.Random(seed * 1000 + n * 10 + np_ + 5)
+                tr = datagen.Translator(r2, vars_, c01.DIMSC, modes=(np_ == 1))
+                progs[np_] = {"x": "C%d" % n, "steps": datagen.fixture(vars_, c01.DIMSC, fmt=fmt) + c01.steps_for(h, r2, np_, vars_, tr, c01.VDIMSC, c01.DIMSC)}
+            exC.append(with_cfg(progs[np_], name, np_, env, PID))
+    rC = datacheck.run(PID, tier, seed, exC, mcD, header=lambda evs: {"vars": c01.VTC}, to_events=c01.serial, sink=sink)
 
     # ---- family N: nonblocking schedules (C02's generator), one process
     V, D = datagen.NB_VARS, datagen.NB_DIMS
@@ -168,13 +185,20 @@ def run(tier, seed):
                 prog = {"x": "F%d" % i, "steps": tr.steps(h, filecheck.NAMES)}
                 exF.append(with_cfg(prog, name, np_, env, PID))
             i += 1
+    # redefinitions that move data, on 1-4 processes (the data movement is divided among the processes)
+    import c06
+    g = c06.grow_scenarios(random.Random(seed + 11), "thorough")
+    random.Random(seed + 12).shuffle(g)
+    for e in g[:80 if q else 2000]:
+        e = dict(e, x="G" + e["x"][1:], prog="G%s#np%d" % (e["x"][1:], e["np"]), cfgname="np%d" % e["np"])
+        exF.append(e)
     rF = filecheck.run(PID, tier, seed, exF, mcF, "", sink=sink)
 
-    for fam, r in (("A", rA), ("N", rN), ("M", rM), ("F", rF)):
+    for fam, r in (("A", rA), ("C", rC), ("N", rN), ("M", rM), ("F", rF)):
         for v in r["violations"]:
             violations.append(dict(v, sig="family=%s;%s" % (fam, v["sig"])))
         cov_parts[fam] = {k: r["coverage"].get(k) for k in ("evaluations", "traces_validated_against_impl", "trace_states", "rejected_first_pass")}
-    all_execs = exA + exN + exM + exF
+    all_execs = exA + exC + exN + exM + exF
     byx = {e["x"]: e for e in all_execs}
 
     # ---- the same program under different configurations: outcomes must coincide (Config.tla)
@@ -218,11 +242,11 @@ def replay(path):
     if r.get("kind") != "config":
         ex = r["exec"]
         fam = ex["x"][0]
-        if fam in ("A", "N"):
-            hdr = (lambda evs: {"vars": c01.VT}) if fam == "A" else datagen.header_for(datagen.NB_VARS, datagen.NB_DIMS)
+        if fam in ("A", "N", "C"):
+            hdr = (lambda evs: {"vars": c01.VT}) if fam == "A" else (lambda evs: {"vars": c01.VTC}) if fam == "C" else datagen.header_for(datagen.NB_VARS, datagen.NB_DIMS)
             bld = vlib.build("dbg")
             res, acc, rej, _ = vlib.run_validate(bld, [ex], datacheck.MODULE, datacheck.CFG_DEV if "deviation" not in r else datacheck.CFG,
-                                                 np=ex.get("np", 1), par=1, header=hdr, to_events=c01.serial if fam == "A" else vlib.flat1)
+                                                 np=ex.get("np", 1), par=1, header=hdr, to_events=c01.serial if fam in ("A", "C") else vlib.flat1)
             if rej:
                 print(rej[0][2][:800])
                 print("VIOLATION property=%s replay=%s" % (PID, path))
@@ -236,10 +260,10 @@ def replay(path):
     sink = {}
     execs = r["execs"]
     fam = r["prog"][0]
-    if fam in ("A", "N"):
-        hdr = (lambda evs: {"vars": c01.VT}) if fam == "A" else datagen.header_for(datagen.NB_VARS, datagen.NB_DIMS)
+    if fam in ("A", "N", "C"):
+        hdr = (lambda evs: {"vars": c01.VT}) if fam == "A" else (lambda evs: {"vars": c01.VTC}) if fam == "C" else datagen.header_for(datagen.NB_VARS, datagen.NB_DIMS)
         res, acc, rej, _ = vlib.run_validate(bld, execs, datacheck.MODULE, datacheck.CFG_DEV, par=4, header=hdr,
-                                             to_events=c01.serial if fam == "A" else vlib.flat1)
+                                             to_events=c01.serial if fam in ("A", "C") else vlib.flat1)
     elif fam == "M":
         np_ = execs[0]["np"]
         res, acc, rej, _ = vlib.run_validate(bld, execs, c05.MODULE, "cfg/Trace_MP.cfg", np=np_, shim=True, par=4,
